@@ -323,4 +323,36 @@ theorem impPathOK_parents (ps : List (Nat × Str)) (i : Nat) (pre : List Str) :
       rw [h1]
       simp
 
+/-- the destination path of an import line `pre {…}` at indent `i`, computed from the hierarchy
+    stack: the names left on the stack and the written prefix, joined and split at the dots (a
+    group line may itself carry a dotted name) -/
+def impDest (ps : List (Nat × Str)) (i : Nat) (pre : List Str) : List Str :=
+  match (popParents i ps).reverse.map Prod.snd ++ pre with
+  | [] => []
+  | d :: ds => splitDot (joinDot (d :: ds))
+
+theorem impName_cons (d : Str) (ds : List Str) (nm : Str) :
+    impName (d :: ds) nm = joinDot (d :: ds) ++ '.' :: nm := rfl
+
+/-- with the computed destination, `ImpPathOK` and `WFDest` hold for every stack and prefix -/
+theorem impDest_ok (ps : List (Nat × Str)) (i : Nat) (pre : List Str) :
+    ImpPathOK ps i pre (impDest ps i pre) ∧ WFDest (impDest ps i pre) := by
+  have h0 := impPathOK_parents ps i pre
+  unfold impDest
+  cases hL : (popParents i ps).reverse.map Prod.snd ++ pre with
+  | nil =>
+    rw [hL] at h0
+    exact ⟨h0, by simp [WFDest]⟩
+  | cons d ds =>
+    rw [hL] at h0
+    simp only
+    have hwf := wf_splitDot (joinDot (d :: ds))
+    refine ⟨?_, hwf.2⟩
+    intro nm
+    rw [h0 nm]
+    cases hsd : splitDot (joinDot (d :: ds)) with
+    | nil => exact absurd hsd hwf.1
+    | cons e es =>
+      rw [impName_cons, impName_cons, ← hsd, joinDot_splitDot]
+
 end SciVerif.C17
